@@ -72,6 +72,11 @@ func extraOp(out *bufio.Writer, inst **lmd.VerifInstance, op string, line opLine
 		emit(out, map[string]interface{}{"id": line.ID, "op": op, "out": string(res), "timeout": timedOut, "err": errStr})
 
 		return true
+	case "sleep":
+		time.Sleep(time.Duration(line.Timeout * float64(time.Second)))
+		emit(out, map[string]interface{}{"id": line.ID, "op": op, "ok": true})
+
+		return true
 	case "locks":
 		if *inst == nil {
 			emit(out, map[string]interface{}{"id": line.ID, "op": op, "error": "no dataset"})
